@@ -100,9 +100,10 @@ Proof.
     intros Hd b Hr; inversion Hr; subst; try reflexivity.
   - cbn [has_default] in Hd. apply andb_true_iff in Hd. destruct Hd as [_ Hd].
     cbn [default_of]. do 2 f_equal. now apply IH.
-  - cbn [default_of]. f_equal. destruct k; try discriminate Hd. cbn [has_default] in Hd.
-    apply andb_true_iff in Hd. destruct Hd as [_ Hd].
-    eapply Forall2_refines_map with (g := fun x => has_default x); eassumption.
+  - cbn [default_of]. f_equal. destruct k; try discriminate Hd; cbn [has_default] in Hd.
+    + apply andb_true_iff in Hd. destruct Hd as [_ Hd].
+      eapply Forall2_refines_map with (g := fun x => has_default x); eassumption.
+    + eapply Forall2_refines_map with (g := fun x => has_default x); eassumption.
   - symmetry. auto.
   - discriminate Hd.
   - cbn [default_of]. apply IH; [|assumption]. destruct w; try discriminate Hd; exact Hd.
@@ -784,8 +785,10 @@ Proof.
   induction t as [p|u|k|k|k t' IH|n t' IH|k ts IH|k vs IH|w t' IH|x] using oty_ind';
     intros H; cbn [subst ohas_default has_default] in *; try exact H.
   - apply andb_true_iff in H. destruct H as [H1 H2]. rewrite H1. cbn [andb]. now apply IH.
-  - destruct k; try discriminate H. rewrite map_length. apply andb_true_iff in H. destruct H as [H1 H2].
-    rewrite H1. cbn [andb]. now apply forallb_map_impl with (g := fun x => ohas_default x).
+  - destruct k; try discriminate H.
+    + rewrite map_length. apply andb_true_iff in H. destruct H as [H1 H2].
+      rewrite H1. cbn [andb]. now apply forallb_map_impl with (g := fun x => ohas_default x).
+    + now apply forallb_map_impl with (g := fun x => ohas_default x).
   - destruct w; try discriminate H; now apply IH.
   - discriminate H.
 Qed.
